@@ -27,12 +27,15 @@ VARIABLES K, S, start, companions,
           evoExecuted,   \* evolution labels whose SQL ran (in order), per run
           migRecorded,   \* migration number -> how many rows in django_migrations
           migExecuted,   \* migrations run (in order), per run
+          soft,          \* migrations announced and recorded without being run, per run: the initial
+                         \* migration of an app whose table is already there (a table from before the
+                         \* app had migrations; Django's fake_initial detection)
           columns,       \* columns of shop_item
           sigMethod, sigApplied,
           pc, run
 
 vars == <<K, S, start, companions, premarked, failFirst, attempted, evoRecorded, evoExecuted, migRecorded, migExecuted,
-          columns, sigMethod, sigApplied, pc, run>>
+          soft, columns, sigMethod, sigApplied, pc, run>>
 
 (* evolution labels before the move, in sequence order *)
 PreMove == [i \in 1..(K + (IF S > 1 THEN 1 ELSE 0)) |->
@@ -51,7 +54,9 @@ Prefix(seq, n) == SubSeq(seq, 1, n)
 SeqSet(seq) == { seq[i] : i \in 1..Len(seq) }
 Zero == [n \in 1..M |-> 0]
 
-Starts == {<<"fresh", 0>>} \cup { <<"evo", j>> : j \in 0..P } \cup { <<"onmig", m0>> : m0 \in S..(M - 1) }
+(* legacy: shop_item exists as 0001_initial would create it - made by hand or by syncdb long
+   ago - and neither Django nor Django Evolution has recorded anything about the app *)
+Starts == {<<"fresh", 0>>, <<"legacy", 0>>} \cup { <<"evo", j>> : j \in 0..P } \cup { <<"onmig", m0>> : m0 \in S..(M - 1) }
 
 Init == /\ K \in 0..MaxK /\ S \in 1..M
         /\ start \in Starts
@@ -61,8 +66,11 @@ Init == /\ K \in 0..MaxK /\ S \in 1..M
         /\ attempted = FALSE
         /\ premarked \in (IF start[1] = "evo" THEN BOOLEAN ELSE {FALSE})
         /\ run = 1 /\ pc = "begin"
-        /\ evoExecuted = <<>> /\ migExecuted = <<>>
-        /\ CASE start[1] = "fresh" ->
+        /\ evoExecuted = <<>> /\ migExecuted = <<>> /\ soft = <<>>
+        /\ CASE start[1] = "legacy" ->
+                  /\ evoRecorded = {} /\ migRecorded = Zero /\ columns = ColsOfMig(1)
+                  /\ sigMethod = "none" /\ sigApplied = {}
+             [] start[1] = "fresh" ->
                   /\ evoRecorded = {} /\ migRecorded = Zero /\ columns = {}
                   /\ sigMethod = "none" /\ sigApplied = {}
              [] start[1] = "evo" ->
@@ -85,14 +93,14 @@ FailedAttempt ==
     /\ pc = "begin" /\ failFirst /\ ~attempted /\ run = 1
     /\ attempted' = TRUE
     /\ UNCHANGED <<K, S, start, companions, failFirst, premarked, run, pc, evoRecorded, evoExecuted, migRecorded,
-                   migExecuted, columns, sigMethod, sigApplied>>
+                   migExecuted, soft, columns, sigMethod, sigApplied>>
 
 (* a brand-new app that ends up on migrations is created by its migrations; the whole
    evolution sequence is recorded without running any of it *)
 FreshInstall ==
     /\ pc = "begin" /\ sigMethod = "none"
     /\ evoRecorded' = SeqSet(AllEvos)
-    /\ UNCHANGED <<evoExecuted, migRecorded, migExecuted, columns, sigMethod, sigApplied>>
+    /\ UNCHANGED <<evoExecuted, migRecorded, migExecuted, soft, columns, sigMethod, sigApplied>>
     /\ Step("migrate")
 
 (* pending evolutions first, the move among them *)
@@ -102,26 +110,30 @@ RunEvolutions ==
        IN /\ evoExecuted' = pending
           /\ evoRecorded' = evoRecorded \cup SeqSet(pending)
           /\ columns' = columns \cup ColsOfEvos(pending)
-    /\ UNCHANGED <<migRecorded, migExecuted, sigMethod, sigApplied>>
+    /\ UNCHANGED <<migRecorded, migExecuted, soft, sigMethod, sigApplied>>
     /\ Step("mark")
 
 (* the migrations named as covered are recorded, once, without being run *)
 MarkApplied ==
     /\ pc = "mark"
     /\ migRecorded' = [n \in 1..M |-> IF n <= S /\ migRecorded[n] = 0 THEN 1 ELSE migRecorded[n]]
-    /\ UNCHANGED <<evoRecorded, evoExecuted, migExecuted, columns, sigMethod, sigApplied>>
+    /\ UNCHANGED <<evoRecorded, evoExecuted, migExecuted, soft, columns, sigMethod, sigApplied>>
     /\ Step("migrate")
 
 AlreadyOnMigrations ==
     /\ pc = "begin" /\ sigMethod = "migrations"
-    /\ UNCHANGED <<evoRecorded, evoExecuted, migRecorded, migExecuted, columns, sigMethod, sigApplied>>
+    /\ UNCHANGED <<evoRecorded, evoExecuted, migRecorded, migExecuted, soft, columns, sigMethod, sigApplied>>
     /\ Step("migrate")
 
 (* every remaining migration, lowest first (the chain is linear) *)
 RunMigration ==
     /\ pc = "migrate" /\ Recorded # 1..M
     /\ LET n == CHOOSE x \in (1..M) \ Recorded : \A y \in (1..M) \ Recorded : x <= y
-       IN /\ migExecuted' = Append(migExecuted, n)
+           \* the initial migration of a table that is already there is announced and recorded,
+           \* not run
+           isSoft == n = 1 /\ columns # {}
+       IN /\ migExecuted' = IF isSoft THEN migExecuted ELSE Append(migExecuted, n)
+          /\ soft' = IF isSoft THEN Append(soft, n) ELSE soft
           /\ migRecorded' = [migRecorded EXCEPT ![n] = @ + 1]
           /\ columns' = columns \cup ColsOfMig(n)
     /\ UNCHANGED <<evoRecorded, evoExecuted, sigMethod, sigApplied>>
@@ -130,12 +142,12 @@ RunMigration ==
 SaveSignature ==
     /\ pc = "migrate" /\ Recorded = 1..M
     /\ sigMethod' = "migrations" /\ sigApplied' = Recorded
-    /\ UNCHANGED <<evoRecorded, evoExecuted, migRecorded, migExecuted, columns>>
+    /\ UNCHANGED <<evoRecorded, evoExecuted, migRecorded, migExecuted, soft, columns>>
     /\ Step("done")
 
 (* the second upgrade *)
 Rerun == /\ pc = "done" /\ run = 1
-         /\ run' = 2 /\ pc' = "begin" /\ evoExecuted' = <<>> /\ migExecuted' = <<>>
+         /\ run' = 2 /\ pc' = "begin" /\ evoExecuted' = <<>> /\ migExecuted' = <<>> /\ soft' = <<>>
          /\ UNCHANGED <<K, S, start, companions, failFirst, attempted, premarked, evoRecorded, migRecorded, columns,
                         sigMethod, sigApplied>>
 
@@ -156,17 +168,19 @@ PendingEvolutionsFirst == (Done /\ run = 1 /\ start[1] = "evo") =>
 SignatureListsRecorded == Done => sigMethod = "migrations" /\ sigApplied = Recorded
 SchemaComplete == Done => columns = ColsOfMigs(1..M)
 NoEvolutionSqlOnceOnMigrations == (Done /\ (run = 2 \/ start[1] = "onmig")) => evoExecuted = <<>>
-RerunIsNoop == (Done /\ run = 2) => evoExecuted = <<>> /\ migExecuted = <<>>
+RerunIsNoop == (Done /\ run = 2) => evoExecuted = <<>> /\ migExecuted = <<>> /\ soft = <<>>
+(* only a table nobody has on record is taken over that way, and only its initial migration *)
+SoftOnlyLegacyInitial == soft # <<>> => (soft = <<1>> /\ start[1] = "legacy" /\ run = 1)
 
 (* the companion apps: `blog` (evolutions only, one pending evolution b1) and `mig`
    (migrations only, 0001_initial applied, 0002 pending); on a fresh database blog's
    evolution is recorded without being run and mig is created by both its migrations.
    Handing shop over must not change what happens to them. *)
 CompanionExpect ==
-    [blogExecuted |-> IF "blog" \in companions /\ run = 1 /\ start[1] # "fresh" THEN <<"b1">> ELSE <<>>,
+    [blogExecuted |-> IF "blog" \in companions /\ run = 1 /\ start[1] \notin {"fresh", "legacy"} THEN <<"b1">> ELSE <<>>,
      blogRecorded |-> IF "blog" \in companions THEN <<"b1">> ELSE <<>>,
      migExecuted  |-> IF "mig" \in companions /\ run = 1
-                      THEN (IF start[1] = "fresh" THEN <<1, 2>> ELSE <<2>>) ELSE <<>>,
+                      THEN (IF start[1] \in {"fresh", "legacy"} THEN <<1, 2>> ELSE <<2>>) ELSE <<>>,
      migRecorded  |-> IF "mig" \in companions THEN <<1, 1>> ELSE <<>>]
 
 RECURSIVE SetToSeq(_)
@@ -175,7 +189,7 @@ SetToSeq(X) == IF X = {} THEN <<>> ELSE LET x == CHOOSE y \in X : TRUE IN <<x>> 
 Emit == (EmitRecords /\ Done) =>
           PrintT(<<"REC", ToJson([K |-> K, S |-> S, start |-> start, companions |-> SetToSeq(companions),
                                    failFirst |-> failFirst, premarked |-> premarked,
-                                   run |-> run, evoExecuted |-> evoExecuted, migExecuted |-> migExecuted,
+                                   run |-> run, evoExecuted |-> evoExecuted, migExecuted |-> migExecuted, soft |-> soft,
                                    evoRecorded |-> SetToSeq(evoRecorded), migRecorded |-> migRecorded,
                                    columns |-> SetToSeq(columns), sigApplied |-> SetToSeq(sigApplied),
                                    companion |-> CompanionExpect])>>)
